@@ -525,4 +525,49 @@ def cli_main(x, p):
 
 
 HARNESSES.append(Harness('cli', cli, quick=[Q]))
+def png_args(x, p):
+    """The .p8.png writer hands the minifier and its name options to the Lua
+    writer just like the .p8 writer (luamin of a .p8.png cart, build to a
+    .p8.png): write with pypng stubbed, read the code back, compare tokens."""
+    import builtins
+    import png
+    from props.C04 import FakeReader, FakeWriter, FakeFile, W_, H_
+    from pico8.game.game import Game
+    from pico8.game.formatter.p8png import P8PNGFormatter
+    src = (b'-- t\nfoo=bar - -baz\nif (foo) qux=1 ..foo\nt[ [[k]] ]=foo\n'
+           b'?foo,bar\n')
+    g = Game.make_empty_game(filename='x.p8.png')
+    g.lua = lua.Lua.from_lines([src], version=8)
+    keep_all = x.bool('keep_all')
+    keep_file = x.bool('keep_file')
+    rows = [bytearray((3 * r + c) % 256 for c in range(W_ * 4))
+            for r in range(H_)]
+
+    def fake_open(name, mode='r', *a, **k):
+        if name == '/w/keep.txt':
+            return hx.MemStream(b'bar\nqux\n')
+        return FakeFile(name)
+    hx.patch(x, builtins, 'open', fake_open)
+    hx.patch(x, png, 'Reader', lambda file=None, **kw: FakeReader(rows))
+    hx.patch(x, png, 'Writer', FakeWriter)
+    out = hx.MemStream()
+    args = {'keep_all_names': keep_all,
+            'keep_names_from_file': '/w/keep.txt' if keep_file else None}
+    try:
+        P8PNGFormatter.to_file(g, out, lua_writer_cls=lua.LuaMinifyTokenWriter,
+                               lua_writer_args=args, filename='x.p8.png',
+                               label_fname='label.png')
+    except Exception as e:
+        x.check('the .p8.png writer accepts the minifier', False,
+                info=repr(e)[:120])
+        return
+    new_rows = FakeWriter.captured
+    hx.patch(x, png, 'Reader', lambda file=None, **kw: FakeReader(new_rows))
+    g2 = P8PNGFormatter.from_file(hx.MemStream(b'PNG'), filename='x.p8.png')
+    code = b''.join(g2.lua.to_lines())
+    x.out('code', code)
+    compare_cli_tokens(x, g.lua.tokens, code, keep_all, keep_file)
+
+
 HARNESSES.append(Harness('cli_main', cli_main, quick=[Q]))
+HARNESSES.append(Harness('png_args', png_args, quick=[Q]))
